@@ -9,4 +9,4 @@ for p in $props; do for d in /tmp/rt${rnd}_$p/out/change_*; do [ -f $d/patch.dif
   ( TRIAL_FROM_HEAD=1 tools/try_mutant.sh $d/patch.diff $d/demo.py $p > /tmp/trial_logs/rt${rnd}_$p-$k.log 2>&1 ) &
   while [ $(jobs -r | wc -l) -ge 4 ]; do sleep 2; done; done; done; wait
 for p in $props; do for d in /tmp/rt${rnd}_$p/out/change_*; do [ -f $d/patch.diff ] || continue; k=$(basename $d | sed 's/change_//'); f=/tmp/trial_logs/rt${rnd}_$p-$k.log
-  echo "$p-$k: $(grep -h 'tests with change\|demo w' $f | tr '\n' ' ') $(grep 'check exit' $f | tr '\n' ' ') $(grep -c 'no-failing-input-found' $f)nfi"; done; done
+  echo "$p-$k: $(grep -h 'tests with change\|demo w' $f | tr '\n' ' ') $(grep 'check exit' $f | tr '\n' ' ') $(grep -c "^VIOLATION" $f)viol $(grep -c "^VIOLATION.*no-failing-input-found" $f)nfi"; done; done
